@@ -796,9 +796,9 @@ func TestVerifC11Matcher(t *testing.T) {
 	st.Emit("alpha c", fmt.Sprintf("valid=%s | n=%d order=-", c11ValidSet(trie.ValidCidrChars.IsValidChar), trie.ValidCidrChars.Size()))
 	st.Emit("alpha ac", fmt.Sprintf("valid=%s | n=%d order=-", c11ValidSet(ahocorasick.IsValidChar), ahocorasick.N))
 
-	sessions, maxPat, nq := 120, 2000, 100
+	sessions, maxPat, nq := 100, 2000, 100
 	if VThorough() {
-		sessions, maxPat, nq = 450, 3000, 200
+		sessions, maxPat, nq = 300, 3000, 200
 	}
 	for s := 0; s < sessions; s++ {
 		bitLen := 1024
